@@ -38,8 +38,15 @@ def mutants(text, rnd, limit=None):
     toks = tokens(text)
     sig = [i for i, (k, _) in enumerate(toks) if k not in ('ws', 'comment')]
     out = []
-    for i in sig:
+    focus = set()      # edits that put a literal with unusual characters where it does not belong are always kept
+
+    def odd(j):
+        return j is not None and toks[j][0] in ('string', 'guid') and not re.match(r'^.[\w\- ]*.$', toks[j][1])
+    for n, i in enumerate(sig):
         k, t = toks[i]
+        nx = sig[n + 1] if n + 1 < len(sig) else None
+        if odd(i) or odd(nx):
+            focus.update(range(len(out), len(out) + 3))
         out.append(('delete', join(toks[:i] + toks[i + 1:])))
         out.append(('duplicate', join(toks[:i + 1] + [('ws', ' ')] + toks[i:])))
         nxt = [j for j in sig if j > i]
@@ -54,7 +61,9 @@ def mutants(text, rnd, limit=None):
         out.append(('truncate', join(toks[:i])))
         out.append(('truncate_mid', join(toks[:i]) + t[:max(1, len(t) // 2)]))
     if limit is not None and len(out) > limit:
-        out = rnd.sample(out, limit)
+        keep = [out[j] for j in sorted(focus) if j < len(out)][:limit]
+        rest = [m for j, m in enumerate(out) if j not in focus]
+        out = keep + rnd.sample(rest, min(len(rest), max(limit - len(keep), limit // 2)))
     return out
 
 
